@@ -26,6 +26,11 @@ BER = "kaira/metrics/signal/ber.py"
 BLER = "kaira/metrics/signal/bler.py"
 BM = "kaira/benchmarks/metrics.py"
 AN = "kaira/channels/analog.py"
+GOLF = "kaira/models/fec/encoders/golay_code.py"
+CYCF = "kaira/models/fec/encoders/cyclic_code.py"
+BCHF = "kaira/models/fec/encoders/bch_code.py"
+HAMF = "kaira/models/fec/encoders/hamming_code.py"
+RMF = "kaira/models/fec/encoders/reed_muller_code.py"
 LINF = "kaira/models/fec/encoders/linear_block_code.py"
 SYSF = "kaira/models/fec/encoders/systematic_linear_block_code.py"
 DG = "kaira/channels/digital.py"
@@ -263,6 +268,27 @@ MUTANTS = {
         ("hamming single block reshape", "kaira/models/fec/encoders/hamming_code.py", "decoded = decoded.reshape(*original_dims, -1)", "decoded = decoded.reshape(*original_dims, self.code_dimension)", "violation", "BLOCKWISE"),
         ("rm 2-D only", "kaira/models/fec/encoders/reed_muller_code.py", "        y2d = x.reshape(-1, self.code_length)\n", "        if x.dim() == 1:\n            y2d = x.unsqueeze(0)\n        else:\n            y2d = x\n", "violation", "BLOCKWISE"),
         ("twin: view instead of reshape in blockwise", "kaira/models/fec/utils.py", "        return result.view(*leading_dims, -1)", "        return result.reshape(*leading_dims, -1)", "silent"),
+    ],
+    "C03": [
+        ("golay matrix entry flipped", GOLF, "            [0, 0, 0, 0, 1, 1, 1, 1, 1, 1, 1],", "            [0, 0, 0, 1, 1, 1, 1, 1, 1, 1, 1],", "violation", "GOLAY"),
+        ("golay extension constant", GOLF, "        last_column = (1 + row_sums) % 2", "        last_column = torch.ones_like(row_sums)", "violation"),
+        ("golay extension parity inverted", GOLF, "        last_column = (1 + row_sums) % 2", "        last_column = row_sums % 2", "violation", "GOLAY"),
+        ("golay advertised distance", GOLF, "        return 8 if self._extended else 7", "        return 8", "violation", "GOLAY"),
+        ("golay generator constant", GOLF, "GOLAY_GENERATOR_POLYNOMIAL = 0b101011100011", "GOLAY_GENERATOR_POLYNOMIAL = 0b101011100111", "violation", "STD-TABLE"),
+        ("cyclic table simplex poly", CYCF, "\"Simplex(7,3)\": {\"code_length\": 7, \"generator_polynomial\": 0b10111}", "\"Simplex(7,3)\": {\"code_length\": 7, \"generator_polynomial\": 0b10011}", "violation", "STD-TABLE"),
+        ("cyclic table golay poly non-divisor", CYCF, "\"Golay(23,12)\": {\"code_length\": 23, \"generator_polynomial\": 0b101011100011}", "\"Golay(23,12)\": {\"code_length\": 23, \"generator_polynomial\": 0b101011100001}", "violation", "STD-TABLE"),
+        ("bch table wrong delta", BCHF, "\"BCH(31,16)\": {\"mu\": 5, \"delta\": 7}", "\"BCH(31,16)\": {\"mu\": 5, \"delta\": 9}", "violation", "STD-TABLE"),
+        ("bch t formula", BCHF, "        # Calculate error correction capability\n        self._error_correction_capability = (delta - 1) // 2", "        # Calculate error correction capability\n        self._error_correction_capability = delta // 2", "violation", "FORMULA"),
+        ("bch roots start at 0", BCHF, "    for i in range(1, delta):\n        minimal_poly = (alpha**i).minimal_polynomial()\n        minimal_polys.add(minimal_poly)", "    for i in range(2, delta):\n        minimal_poly = (alpha**i).minimal_polynomial()\n        minimal_polys.add(minimal_poly)", "violation", "FORMULA"),
+        ("hamming distance advertised", HAMF, "        return 4 if self._extended else 3", "        return 4", "violation", "FORMULA"),
+        ("hamming extension all ones", HAMF, "        parity_extension = (1 + parity_submatrix.sum(dim=1, keepdim=True)) % 2", "        parity_extension = torch.ones((k, 1), dtype=dtype, device=device)", "violation", "EXTENSION"),
+        ("hamming weights from 1", HAMF, "        # Generate all weight 2+ combinations\n        for w in range(2, mu + 1):", "        # Generate all weight 2+ combinations\n        for w in range(1, mu + 1):", "violation", "HAMMING-COLS"),
+        ("rm distance exponent", RMF, "self.minimum_distance = 2 ** (length_param - order)", "self.minimum_distance = 2 ** (length_param - order + 1)", "violation", "FORMULA"),
+        ("spc distance", "kaira/models/fec/encoders/single_parity_check_code.py", "self.minimum_distance = 2", "self.minimum_distance = 3", "violation", "FORMULA"),
+        ("cyclic parity slice for left", CYCF, "        parity_submatrix = generator_matrix[:, 0 : n - k]", "        parity_submatrix = generator_matrix[:, k:n] if information_set == \"left\" else generator_matrix[:, 0 : n - k]", "violation", "CYCLIC-LAYOUT"),
+        ("cyclic accepts non-divisor", CYCF, "            if remainder.value != 0:\n                raise ValueError(\"'generator_polynomial' must be a factor of X^n + 1\")", "            if remainder.value != 0 and remainder.degree > self._generator_poly.degree:\n                raise ValueError(\"'generator_polynomial' must be a factor of X^n + 1\")", "violation", "CYCLIC-LAYOUT"),
+        ("code rate inverted", "kaira/models/fec/encoders/base.py", "        return self._dimension / self._length", "        return self._length / self._dimension", "violation", "FORMULA"),
+        ("twin: golay dtype noise", GOLF, "        last_column = (1 + row_sums) % 2", "        last_column = (row_sums + 1) % 2", "silent"),
     ],
 }
 
